@@ -74,7 +74,7 @@ REQUIRED_COUNTERS = [
     "elitism_checks",
     "checkpoint_checks",
 ]
-CASE_TIMEOUT_S = 900
+CASE_TIMEOUT_S = 1800  # tiny runs (0.1-7 s); generous because the machine is shared and can stall for minutes
 GEN_CAP = 40  # generations; every generated budget is met after <= 6
 
 LOOP_FN = {
